@@ -123,6 +123,32 @@ def alloc_program(body, tail):
     return pre + 'void f(int n, int v) {\n\tint i;\n\ttypedef int T[n];\n\ttypedef T T2[2];\n\t%s\n}\n' % body
 
 
+OPS_TYPES = ['char', 'unsigned char', 'short', 'unsigned short', 'int', 'unsigned', 'long', 'unsigned long', 'float', 'double', '_Bool', 'enum oe', 'int *', 'long double']
+OPS_BIN = ['+', '-', '*', '/', '%', '&', '|', '^', '<<', '>>', '<', '>', '<=', '>=', '==', '!=', '&&', '||']
+OPS_ASG = ['=', '+=', '-=', '*=', '/=', '%=', '&=', '|=', '^=', '<<=', '>>=']
+
+
+def ops_programs():
+    """every binary operator, compound assignment, unary operator, conversion and conditional on every pair of operand types: the class of
+    each emitted instruction must fit its operands (seeded round 9: 'cged' chosen for float operands).  Combinations C does not allow are
+    refused by the compiler and do not count."""
+    pre = 'enum oe { OE0, OE1 }; void sink(void *); int g(int);\n'
+    for t in OPS_TYPES:
+        for u in OPS_TYPES:
+            body = []
+            for op in OPS_BIN:
+                yield '%s %s %s' % (t, op, u), pre + 'void f(%s a, %s b) { typeof(a %s b) r = a %s b; sink(&r); if (a %s b) g(1); while (a %s b) g(2); g(a %s b ? 3 : 4); }\n' % (t, u, op, op, op, op, op)
+            for op in OPS_ASG:
+                yield '%s %s %s' % (t, op, u), pre + 'void f(%s a, %s b) { a %s b; sink(&a); typeof(a %s b) r = (a %s b); sink(&r); }\n' % (t, u, op, op, op)
+            yield '%s ?: %s' % (t, u), pre + 'void f(int c, %s a, %s b) { typeof(c ? a : b) r = c ? a : b; sink(&r); }\n' % (t, u)
+            yield '(%s)%s' % (t, u), pre + 'void f(%s b) { %s r = (%s)b; sink(&r); %s i = b; sink(&i); }\n%s h(%s b) { return b; }\n' % (u, t, t, t, t, u)
+        for op in ('-', '~', '!', '+', '++', '--'):
+            yield '%s%s' % (op, t), pre + 'void f(%s a) { typeof(%sa) r = %sa; sink(&r); if (%sa) g(1); }\n' % (t, op, op, op)
+        for op in ('++', '--'):
+            yield '%s%s' % (t, op), pre + 'void f(%s a) { typeof(a%s) r = a%s; sink(&r); sink(&a); }\n' % (t, op, op)
+        yield 'call %s' % t, pre + '%s callee(%s, ...); void f(%s a) { %s r = callee(a, a, a); sink(&r); }\n' % (t, t, t, t)
+
+
 DATA_UNIT = r'''
 struct s1 { char c; int i; short s; };
 struct bf { int a : 3; int b : 5; int : 0; unsigned c : 9; char d; };
@@ -258,6 +284,11 @@ def main(chk):
     for body, n in stmt_trees(3 if chk.quick else 4, ALLOC_LEAVES):
         push('alloc/%d' % n, alloc_program(body, True))
         push('alloc/%d' % n, alloc_program(body, False))
+    for label, src in ops_programs():
+        push('ops/' + label.split(' ')[-2] if ' ' in label else 'ops/unary', src)
+        if not chk.quick:
+            push('ops/aarch64', src, 'aarch64')
+            push('ops/riscv64', src, 'riscv64')
     for e, k in expr_trees(2 if chk.quick else 3):
         push('expr/%d' % k, stmt_program('n = ' + e + '; if (' + e + ') g(@); while (' + e + ') n = ' + e + ';'))
     # (iv) single-token mutants of the corpus that still compile
